@@ -125,7 +125,10 @@ def block_traces(g, out, ids):
                 break
             sh.apply_block(ob)
             if si >= npre:
-                res.append((dict(sh.store), {i: ("FEE" if rc[1] == "fee_insufficient" else (rc[5] if len(rc) > 5 else None)) for i, rc in enumerate(ob.get("receipts") or [])},
+                res.append((dict(sh.store), {i: ("FEE" if rc[1] == "fee_insufficient" else
+                                              # a read that SUCCEEDED says "present" even when the value it returned is empty; a FAILED one None
+                                              ((rc[5] if (len(rc) > 5 and rc[5] is not None) else "present") if rc[0] == 0 else None))
+                                          for i, rc in enumerate(ob.get("receipts") or [])},
                             [rc[0] == 0 for rc in (ob.get("receipts") or [])]))
         elif st["op"] == "restart":
             res.append((dict(sh.store), {}, []))
@@ -188,6 +191,17 @@ def corpus_histories(ids):
             [X.op_store_get_missing("u:0", "k78"), P("u:1", "RelayDeep", "chainA"), P("u:2", "RelayDeep", "chainA"), P("u:0", "RelayIgnore", "chainB"),
              P("u:2", "RelayThenFail", "chainC"), X.op_store_get_missing("u:2", "k79"), P("u:0", "RelaySet", "chainC", "k5", 9)]], gas=1),
         mk([f("u:0", 10**12), f("u:1", 1)], [[X.op_store_set(ids, "u:1", "k1", 1), P("u:0", "Relay", "chainA")]], gas=1),
+        # a key committed with a ZERO-LENGTH value (as the executor leaves an emptied timeout list): the contract account is
+        # loaded by a read, a FAILED transaction (contract error / unaffordable fee) overwrites the key; the key must still
+        # be PRESENT for the reads of the same block, of the next block and after a restart
+        mk([f("u:0", 10**12), f("u:1", 5)],
+           [[X.op_kv(ids, "u:0", "Overwrite", "e1", 1)], [X.op_kv(ids, "u:0", "PutEmpty", "e1")],
+            [X.op_kv(ids, "u:0", "Has", "e1"), X.op_kv(ids, "u:0", "SetFail", "e1", 9), X.op_kv(ids, "u:0", "Has", "e1")],
+            [X.op_kv(ids, "u:0", "Has", "e1")], RESTART, [X.op_kv(ids, "u:0", "Has", "e1")]], gas=1),
+        mk([f("u:0", 10**12), f("u:1", 5)],
+           [[X.op_kv(ids, "u:0", "Overwrite", "e2", 1)], [X.op_kv(ids, "u:0", "PutEmpty", "e2")],
+            [X.op_kv(ids, "u:0", "Has", "e2"), X.op_kv(ids, "u:1", "Overwrite", "e2", 9), X.op_kv(ids, "u:0", "Has", "e2")],
+            [X.op_kv(ids, "u:0", "Has", "e2"), X.op_kv(ids, "u:0", "Overwrite", "e2", 4), X.op_kv(ids, "u:0", "Has", "e2")]], gas=1),
         # deletion marker: a SUCCESSFUL delete of a committed key, then a FAILED write of the same key in the same block, reads
         mk([f("u:0", 10**12), f("u:1", 1)],
            [[X.op_register_interchain(ids, "u:0", "chainZ:svcQ")],
